@@ -1018,7 +1018,9 @@ class Interp:
             ret = join(ret, rv)
             m = mm if m is None else join_mem(m, mm)
             pco = pco | p
-        if ret[0] == "ref" and ret[1] is not None and ret[1][0] >= fid:
+        esc = []
+        self.refs_in(ret, esc)
+        if any(tg[0] >= fid for tg in esc):
             raise Imprecise("reference to a callee local escapes")
         self.mem = m[:fid]
         return ret, pco
@@ -1059,8 +1061,9 @@ class Interp:
                     self.refs_in(x, out)
 
     # ---------------------------------------------------------------- iterators and closures (std adaptors without MIR)
-    def call_closure(self, fr, clos, args, pc):
-        """run the MIR of a closure value on `args`; None when it is not a closure this analysis can enter"""
+    def call_closure(self, fr, clos, args, pc, cell=None):
+        """run the MIR of a closure value on `args`; None when it is not a closure this analysis can enter.
+        `cell`: a one-element list that keeps the heap cell of an FnMut closure across calls (its by-value state persists)"""
         if not (clos[0] == "agg" and isinstance(clos[2], tuple) and clos[2] and clos[2][0] == "closure" and len(clos[2]) > 2 and clos[2][2] is not None):
             return None
         inst = clos[2][2]
@@ -1069,8 +1072,13 @@ class Interp:
             return None
         selfty = body["locals"][1] if len(body["locals"]) > 1 else ""
         if selfty.startswith("&"):
-            key = "closure%d" % len(self.mem[0])
-            self.mem[0][key] = clos
+            if cell is not None and cell:
+                key = cell[0]
+            else:
+                key = "closure%d" % len(self.mem[0])
+                self.mem[0][key] = clos
+                if cell is not None:
+                    cell.append(key)
             selfarg = ("ref", (0, key, ()))
         else:
             selfarg = clos
@@ -1157,8 +1165,9 @@ class Interp:
             return S(None, d_, "bool")
         if name == "fold" and len(args) == 3:
             acc = args[1]
+            cell = []
             for x in it[1]:
-                r = self.call_closure(fr, args[2], [acc, add_deps(x, it[2])], pc)
+                r = self.call_closure(fr, args[2], [acc, add_deps(x, it[2])], pc, cell)
                 if r is None:
                     return None
                 acc, pc = r
